@@ -19,19 +19,28 @@ META = {
                   'connection of the same dispatcher leaves every other reply as it is, for a dispatcher satisfying DispNeutral); a model of '
                   'Dispatcher.handle_request and the handle_* methods over an abstract node (Wire/Dispatch) for which DispNeutral, the FitsOk half of DispFits '
                   'and finiteness of the data handed on are proved (dispatcher_answers_independent, dispatcher_reply_fits, dispatcher_emitted_strict); '
-                  'peer_gone_prefix / peer_gone_sound (a socket whose sendall fails from call n on, any n: the peer has exactly the first n frames of the run '
-                  'without failure, the line being processed is finished, no later line reaches the dispatcher).  The models are tied to '
+                  'peer_gone_prefix / peer_gone_sound / peer_gone_partial (a socket whose sendall call n raises, any n, after any k bytes of its frame went out: '
+                  'the peer has exactly the first n frames of the run without failure followed by an unterminated rest without newline, the line being processed is '
+                  'finished, no later line reaches the dispatcher, sendall is never called again whatever the socket would do); the concurrent senders model has the '
+                  'same failure (steps fail / skip) and lines_whole, senders_keep_order, replies_in_order_among_events hold for it; the whole-line and peer-gone theorems '
+                  'assume of the dispatcher only DispNoEol (no newline in action and specifier of what it sends, for requests cut from lines), which is proved for the '
+                  'dispatcher model over any node (dispatcher_no_newline, dispatcher_lines_whole); a model of the text of error reports (SECoPError.format on '
+                  'BaseException.__str__, Wire/ErrText) with error_text_usual / error_text_any_args / error_text_unregistered.  The models are tied to '
                   'frappy/protocol/interface/{__init__,handler,tcp}.py and frappy/protocol/dispatcher.py by a correspondence run on the real TCPRequestHandler over a '
-                  'scripted socket (stub dispatcher doing anything + the real Dispatcher over a small real node, also with sockets that fail; the dispatcher model '
+                  'scripted socket (stub dispatcher doing anything -- including SECoP errors of 16 classes with 23 shapes of arguments and 0-3 raising methods -- + the '
+                  'real Dispatcher over a small real node whose driver functions may fail with such errors, also with sockets whose sendall raises after a part of the frame and then '
+                  'stay dead or take data again; the text of every error report against the ErrText model; the dispatcher model '
                   'against the real Dispatcher per call, its request-only functions taken from fresh nodes; sessions of several connections one after the other on one '
                   'node; two connections and an updater thread on one real dispatcher under a deterministic scheduler with partial writes), and the Lean monitors judge the bytes '
-                  'actually sent: whole lines, one fitting reply per request line, no events of modules the connection did not subscribe to, and -- on pairs of runs, '
+                  'actually sent -- and, when a send failed, the bytes the peer has received cut at their newlines (judgeReceived) --: whole lines, one fitting reply per request '
+                  'line, no events of modules the connection did not subscribe to, and -- on pairs of runs, '
                   'the second without some neutral lines -- unchanged answers to all other lines.',
     'level_note': 'Trusted: Lean kernel + axioms propext/Classical.choice/Quot.sound; Python json and the UTF-8 codec enter the '
                   'model as parameters with the laws of Spec.C07.LibLaws; strictness of emitted JSON (judged on runs with the real Dispatcher; '
                   'what a stub dispatcher hands over is harness input) and validity of emitted UTF-8 are tested on the implementation side only; '
-                  'ThreadingTCPServer and the socket are not modelled (sendall = a sequence of partial writes that succeed, or a call that fails as a whole; '
-                  'send_lock = a lock acquired only when free).  The answers compared by the independence monitor are canonicalised by the harness: time stamps '
+                  'ThreadingTCPServer and the socket are not modelled (sendall = a sequence of partial writes, after any of which it may raise; '
+                  'send_lock = a lock acquired only when free); str() and repr() of the argument objects of an error are parameters of the error text model (the '
+                  'functions of Python itself in the correspondence run; objects whose __str__ / __repr__ raise are outside).  The answers compared by the independence monitor are canonicalised by the harness: time stamps '
                   'masked, error reports reduced to the class name.',
     'trusted': [
         'LibLaws: json.loads(json.dumps(x)) == x; json.dumps output is non-empty ASCII without newline that begins and ends with a '
@@ -41,7 +50,8 @@ META = {
         '(oracle tables); for the dispatcher model: descriptive data and the checks of activate / logging are tables computed on fresh nodes, '
         'what a module did with read/change/do is what the real module did in that call, Python truth values of request data come from Python',
         'the dispatcher raises only subclasses of Exception (KeyboardInterrupt/SystemExit are not answered)',
-        'what a failing sendall wrote before it raised is not modelled (the peer is gone)',
+        'a failing sendall has written a proper prefix of its frame (never the whole frame); exceptions of sendall are subclasses of Exception',
+        'str() / repr() of the arguments of an error raised by driver code do not raise',
     ],
     'modelled_not_verified': [
         'socketserver.ThreadingTCPServer / socket.recv / sendall (scripted fake socket)',
@@ -51,8 +61,9 @@ META = {
         'abstract bookkeeping that never influences a reply; the events a request causes are not compared with the dispatcher model (abstract function)',
     ],
     'assumptions': [
-        'DispFits (hypothesis of reply_action_fits / lines_whole): positive replies of the dispatcher are well-formed triples that belong '
-        'to the request; its FitsOk half is proved for the dispatcher model, well-formedness of specifiers is checked on the real Dispatcher by the monitors',
+        'DispFits (hypothesis of reply_action_fits / error_class_is_secop): positive replies of the dispatcher are well-formed triples that belong '
+        'to the request; its FitsOk half is proved for the dispatcher model.  The whole-line theorems need only DispNoEol, proved for the dispatcher model '
+        'under NodeEventsNoEol (module / parameter names in events contain no newline)',
         'DispNeutral (hypothesis of neutral_lines_removable): proved for the dispatcher model over any NodeIf, i.e. assuming that descriptive data and the '
         'checks of activate / logging are functions of the request alone and that no reply depends on subscriptions; checked on the real node by the '
         'correspondence run (fresh-node tables) and by the independence monitor',
@@ -1475,11 +1486,13 @@ def run(ctx):
                 'handler-colliding actions), 45 % of the lines mutated at byte level (invalid UTF-8, broken JSON, missing/extra fields, '
                 'white space incl. Unicode, CR/LF variants, blank lines, 1-64 KiB lines), delivered to the real TCPRequestHandler in '
                 'random segmentations (all 2^(n-1) segmentations of the short streams), with a stub dispatcher doing per call one of '
-                '27 things (fitting reply, reply after events, 6 SECoP errors, 6 other exceptions, 9 kinds of unusable return value) '
-                'or the real Dispatcher over a two-module node; plus concurrent cases (connection A with such a stream, connection B with a fixed '
+                '31 things (fitting reply, reply after events, 6 SECoP errors, 10 other exceptions, 9 kinds of unusable return value) or, 30 % of '
+                'the calls, raising a SECoP error of one of 16 classes with one of 23 shapes of arguments (none, several, not strings) and 0-3 raising methods, '
+                'or the real Dispatcher over a two-module node, 30 % of them with driver functions (read / write / commands) that raise such errors; plus concurrent cases (connection A with such a stream, connection B with a fixed '
                 'script, a third thread announcing updates, all on one real dispatcher under the deterministic scheduler with partial '
                 'writes; when nothing A sends is carried out by a module, B is compared with B alone on a fresh node); 10 % of the streams with a '
-                'socket whose sendall fails from call n on (5 kinds of exception); sessions (1-3 connections one after the other on one node, 55 % of the '
+                'socket whose sendall call n raises (5 kinds of exception) after 0 .. all-but-one bytes of its frame went out, later calls raising too or '
+                '(60 %) succeeding -- the same for connection A in 30 % of the concurrent cases; sessions (1-3 connections one after the other on one node, 55 % of the '
                 'lines requests that no module carries out with any specifier) run twice, the second time on a fresh node without some of the '
                 'neutral lines (one / all / all of one connection / random half); non-trivial = at least 2 request lines in at least 2 chunks with at '
                 'least one positive and one error reply; for sessions: at least 2 connections, lines left out and lines kept')
